@@ -206,16 +206,12 @@ func TestC23(t *testing.T) {
 				return
 			}
 			snapshots++
-			v := check()
-			for try := 0; v != "" && try < 3; try++ {
-				// re-confirm over a sustained quiescent window: the disagreement must be stable
-				if ok, _ := w.Q.Sustained(400 * time.Millisecond); !ok {
-					if ok2, _ := w.Quiesce(); !ok2 {
-						viol = "inconclusive:no quiescence at " + label
-						return
-					}
-				}
-				v = check()
+			// the disagreement must be stable: it counts only if it is still there after a window in which
+			// the system stayed quiescent throughout
+			v, unstable := w.ConfirmStable(check, 400*time.Millisecond)
+			if unstable != "" {
+				viol = "inconclusive:" + unstable + " at " + label
+				return
 			}
 			if v != "" {
 				viol = label + ": " + v
